@@ -214,7 +214,7 @@ def _db_mapv(dbmodel, expression):
     )
 
 
-def _db_maximum_expr(dbmodel, expression):
+def _db_fmax_expr(dbmodel, expression):
     x_expr = dbmodel.expr_to_sql(expression.args[0], want_inline_parens=True)
     y_expr = dbmodel.expr_to_sql(expression.args[1], want_inline_parens=True)
     return (
@@ -245,7 +245,7 @@ def _db_maximum_expr(dbmodel, expression):
     )
 
 
-def _db_fmax_expr(dbmodel, expression):
+def _db_maximum_expr(dbmodel, expression):
     x_expr = dbmodel.expr_to_sql(expression.args[0], want_inline_parens=True)
     y_expr = dbmodel.expr_to_sql(expression.args[1], want_inline_parens=True)
     return (
@@ -270,7 +270,7 @@ def _db_fmax_expr(dbmodel, expression):
     )
 
 
-def _db_minimum_expr(dbmodel, expression):
+def _db_fmin_expr(dbmodel, expression):
     x_expr = dbmodel.expr_to_sql(expression.args[0], want_inline_parens=True)
     y_expr = dbmodel.expr_to_sql(expression.args[1], want_inline_parens=True)
     return (
@@ -301,7 +301,7 @@ def _db_minimum_expr(dbmodel, expression):
     )
 
 
-def _db_fmin_expr(dbmodel, expression):
+def _db_minimum_expr(dbmodel, expression):
     x_expr = dbmodel.expr_to_sql(expression.args[0], want_inline_parens=True)
     y_expr = dbmodel.expr_to_sql(expression.args[1], want_inline_parens=True)
     return (
